@@ -324,7 +324,12 @@ func Run(s *simrt.Sim, a *harness.Args, r *harness.Result) {
 			switch o.kind {
 			case "create":
 				opts := pass_table.HashOpts{BcryptCost: 4, Argon2Time: 1, Argon2Memory: 64, Argon2Threads: 1}
+				if failLookup && i%3 == 1 {
+					// the table cannot answer the "does it exist?" lookup
+					w.tbl.FailNext = 1
+				}
 				err := w.pt.CreateUserHash(o.user, o.pass, o.algo, opts)
+				w.tbl.FailNext = 0
 				k, ok := key(o.user)
 				if err == nil {
 					if !ok {
